@@ -301,6 +301,11 @@ class Gen:
             test = self.inp(2)
             if getattr(self, "datacond", False) and in_method is not None and in_method["iw"] >= 2 and self.chance(0.5):
                 test = f"d:{in_method['id']}:s"  # the two low bits of data_in
+            rest = [v for v in range(4) if v not in vals]
+            if rest and self.chance(0.3):  # one Case with several patterns (or a pattern with a don't-care bit)
+                k = rng.randrange(len(vals))
+                extra = rng.choice(rest)
+                vals[k] = f"{vals[k] >> 1}-" if (vals[k] ^ extra) == 1 and self.chance(0.5) else [vals[k], extra]
             node = ["Sw", {"u": self.uid(), "test": test, "cases": [[v, alts[k]] for k, v in enumerate(vals)],
                            "default": alts[nalt] if self.chance(0.6) else None}]
         else:
